@@ -18,7 +18,7 @@ From DV Require Import Prelude.Base Model.Node.
 From Coq Require Import String.
 From Coq Require Import List Lia Bool Arith.
 Import ListNotations.
-Open Scope nat_scope.
+Local Open Scope nat_scope.
 
 
 (* ---------------------------------------------------------------------------------------- *)
@@ -1470,3 +1470,502 @@ Proof.
   unfold G_ident, G_live, G_pw. rewrite H1, H4. cbn. repeat split; try tauto.
   intros p cid Hp Hc. apply H8 in Hp. destruct Hp as [A _]. congruence.
 Qed.
+
+(* ---------------------------------------------------------------------------------------- *)
+(* 8. the guard on the environment's inputs                                                   *)
+(* ---------------------------------------------------------------------------------------- *)
+(* (i)  a connection receives at most one capabilities-exchange message, ever (`seen` is the
+        ghost set of connection ids that already received one);
+   (ii) a capabilities-exchange message received on an OUTBOUND connection carries the name of the
+        dialled peer as Origin-Host;
+   (iii) a capabilities-exchange message received on an INBOUND connection is a request (CER), with
+        any Origin-Host.
+   The connection's direction and the dialled peer's name are read off the run (c_recv, c_node_name
+   at the time of the read); both are known to the environment (ODial). *)
+Definition is_ce (m : msg) : bool := cmd_eqb (m_cmd m) CE.
+Definition ce_count (ms : list msg) : nat := List.length (List.filter is_ce ms).
+
+Definition ev_guard (n : node) (seen : list nat) (e : event) : Prop :=
+  match e with
+  | ERecv cid ms =>
+      forall c, get_conn n cid = Some c ->
+        ce_count ms + (if mem_nat cid seen then 1 else 0) <= 1 /\
+        forall m, List.In m ms -> m_cmd m = CE ->
+          if c_recv c then m_req m = true
+          else forall o, m_origin m = Present o -> o = c_node_name c
+  | _ => True
+  end.
+Definition ev_seen (e : event) : list nat :=
+  match e with ERecv cid ms => if List.existsb is_ce ms then [cid] else [] | _ => [] end.
+
+Fixpoint ce_guard_from (n : node) (seen : list nat) (evs : list (dials * event)) : Prop :=
+  match evs with
+  | [] => True
+  | de :: r => ev_guard n seen (snd de) /\
+               ce_guard_from (fst (step n (fst de) (snd de))) (ev_seen (snd de) ++ seen)%list r
+  end.
+Definition ce_guard (n0 : node) (evs : list (dials * event)) : Prop := ce_guard_from n0 [] evs.
+
+Definition wf_init_g (n : node) : Prop := wf_init n /\ ~ List.In ""%string (List.map p_name (n_peers n)).
+Definition reach_g (n0 n : node) : Prop :=
+  exists evs : list (dials * event), wf_init_g n0 /\ ce_guard n0 evs /\ n = fst (run n0 evs).
+
+Lemma is_ce_iff m : is_ce m = true <-> m_cmd m = CE.
+Proof. unfold is_ce. destruct (m_cmd m); cbn; split; intros; try discriminate; auto. Qed.
+
+Lemma msgs_pre_noce md ms : List.existsb is_ce ms = false -> forall n cid, msgs_pre md n cid ms.
+Proof.
+  induction ms as [|m r IH]; cbn; auto. intros H n cid. apply orb_false_iff in H. destruct H as [H1 H2].
+  split; auto. intros Hc. apply is_ce_iff in Hc. congruence.
+Qed.
+
+Lemma existsb_count ms : List.existsb is_ce ms = true -> 1 <= ce_count ms.
+Proof.
+  unfold ce_count. induction ms as [|m r IH]; cbn; [discriminate|]. destruct (is_ce m); cbn; [lia|auto].
+Qed.
+Lemma count_existsb ms : ce_count ms = 0 -> List.existsb is_ce ms = false.
+Proof.
+  intros H. destruct (List.existsb is_ce ms) eqn:E; auto. apply existsb_count in E. lia.
+Qed.
+
+Lemma mem_nat_in x l : List.In x l -> mem_nat x l = true.
+Proof. intros H. unfold mem_nat. apply existsb_exists. exists x. split; auto. apply Nat.eqb_refl. Qed.
+
+(* a quiet derivation keeps the direction and the node name of connection cid *)
+Definition keeps (cid : nat) (c : conn) (n : node) : Prop :=
+  cid < n_next_cid n /\
+  forall c', get_conn n cid = Some c' -> c_recv c' = c_recv c /\ c_node_name c' = c_node_name c.
+
+Lemma find_filter_id l cid k c' :
+  List.find (fun c => Nat.eqb (c_id c) cid) (List.filter (fun x => negb (Nat.eqb (c_id x) k)) l) = Some c' ->
+  List.find (fun c => Nat.eqb (c_id c) cid) l = Some c'.
+Proof.
+  induction l as [|a l IH]; cbn; auto.
+  destruct (Nat.eqb (c_id a) k) eqn:Ek; cbn.
+  - intros H. destruct (Nat.eqb (c_id a) cid) eqn:Ec; auto. exfalso.
+    apply find_some in H. destruct H as [H1 H2]. apply filter_In in H1. destruct H1 as [_ H1].
+    apply Nat.eqb_eq in Ek, Ec, H2. apply negb_true_iff, Nat.eqb_neq in H1. congruence.
+  - destruct (Nat.eqb (c_id a) cid); auto.
+Qed.
+
+Lemma find_app_fresh l x cid : c_id x <> cid ->
+  List.find (fun c => Nat.eqb (c_id c) cid) (l ++ [x]) = List.find (fun c => Nat.eqb (c_id c) cid) l.
+Proof.
+  intros H. induction l as [|a l IH]; cbn.
+  - apply Nat.eqb_neq in H. now rewrite H.
+  - destruct (Nat.eqb (c_id a) cid); auto.
+Qed.
+
+Lemma keeps_upd cid c n k f : soft f -> keeps cid c n -> keeps cid c (set_conns n (upd_conn (n_conns n) k f)).
+Proof.
+  intros Hf [H1 H2]. split; auto. intros c'. destruct (Nat.eq_dec k cid) as [D|D].
+  - subst k. rewrite get_conn_upd by now apply soft_keeps. destruct (get_conn n cid) as [c0|]; cbn; [|discriminate].
+    intros E; inversion E; subst c'. destruct (Hf c0) as [_ [A [B _]]]. rewrite A, B. auto.
+  - unfold get_conn. cbn. rewrite find_upd_conn_other; auto. now apply soft_keeps.
+Qed.
+
+Lemma astep_keeps cid c n n' : astep MQuiet n n' -> keeps cid c n -> keeps cid c n'.
+Proof.
+  intros H Hk. destruct H; try exact Hk.
+  - now apply keeps_upd.
+  - destruct H.
+  - destruct H.
+  - destruct Hk as [H1 H2]. split; [erewrite rc_next by eauto; auto|].
+    intros c'. unfold get_conn. erewrite rc_conns by eauto. intros E. apply find_filter_id in E. now apply H2.
+  - destruct Hk as [H1 H2]. split; [cbn; lia|exact H2].
+  - destruct Hk as [H1 H2]. unfold accept_conn. split; [cbn; lia|]. intros c'. unfold get_conn. cbn.
+    rewrite find_app_fresh by (cbn; lia). apply H2.
+  - destruct Hk as [H1 H2]. unfold dial_conn. split; [cbn; lia|]. intros c'. unfold get_conn. cbn.
+    rewrite find_app_fresh by (cbn; lia). apply H2.
+Qed.
+
+Lemma trans_keeps cid c n n' : trans MQuiet n n' -> keeps cid c n -> keeps cid c n'.
+Proof. apply trans_inv. apply astep_keeps. Qed.
+
+Lemma guard_msgs_pre cid c : forall ms n1,
+  keeps cid c n1 -> (c_recv c = true -> c_node_name c = ""%string) -> ce_count ms <= 1 ->
+  (forall m, List.In m ms -> m_cmd m = CE ->
+     if c_recv c then m_req m = true else forall o, m_origin m = Present o -> o = c_node_name c) ->
+  msgs_pre (MOn cid) n1 cid ms.
+Proof.
+  induction ms as [|m r IH]; intros n1 Hk Hin Hc Hg; cbn [msgs_pre]; auto. split.
+  - intros Hce. pose proof (Hg m (or_introl eq_refl) Hce) as Hm. destruct Hk as [_ Hk].
+    destruct (m_req m) eqn:Er.
+    + intros host Eo. split; [reflexivity|]. intros _ c' Ec. destruct (Hk c' Ec) as [A B]. rewrite B.
+      destruct (c_recv c); [right; auto|left; symmetry; auto].
+    + split; [reflexivity|]. intros _ o c' Eo Ec. destruct (Hk c' Ec) as [A B]. rewrite B.
+      destruct (c_recv c); [discriminate|symmetry; auto].
+  - unfold ce_count in Hc. cbn [List.filter] in Hc. destruct (is_ce m) eqn:Ei.
+    + cbn in Hc. apply msgs_pre_noce. apply count_existsb. unfold ce_count. lia.
+    + apply IH; auto.
+      * eapply trans_keeps; eauto. apply dispatch_t; [|constructor]. intros Hce. apply is_ce_iff in Hce. congruence.
+      * intros m' Hm'. apply Hg. now right.
+Qed.
+
+(* connections that have not received a capabilities-exchange message: inbound ones are unnamed *)
+Definition S_seen (seen : list nat) (n : node) : Prop :=
+  forall c, List.In c (n_conns n) -> c_recv c = true -> c_node_name c = ""%string \/ List.In (c_id c) seen.
+
+Lemma astep_seen md seen n n' : astep md n n' -> (forall k, writes md k -> List.In k seen) ->
+  S_seen seen n -> S_seen seen n'.
+Proof.
+  intros H Hw Hs. destruct H; try exact Hs.
+  - intros c' Hin Hr. cbn in Hin. apply in_upd_conn in Hin. destruct Hin as [Hin|[c [Hin [E _]]]]; auto.
+    subst c'. destruct (H c) as [A [B [C _]]]. rewrite A, C. rewrite B in Hr. auto.
+  - intros c' Hin Hr. cbn in Hin. apply in_upd_conn in Hin. destruct Hin as [Hin|[c [Hin [E Eid]]]]; auto.
+    subst c'. right. rewrite keeps_id_name_fn. rewrite Eid. auto.
+  - intros c' Hin Hr. cbn in Hin. apply in_upd_conn in Hin. destruct Hin as [Hin|[c [Hin [E Eid]]]]; auto.
+    subst c'. cbn in Hr |- *. auto.
+  - intros c' Hin. erewrite rc_conns in Hin by eauto. apply filter_In in Hin. apply Hs. tauto.
+  - intros c' Hin Hr. unfold accept_conn in Hin. cbn in Hin. apply in_app_iff in Hin.
+    destruct Hin as [Hin|[Hin|[]]]; auto. subst c'. auto.
+  - intros c' Hin Hr. unfold dial_conn in Hin. cbn in Hin. apply in_app_iff in Hin.
+    destruct Hin as [Hin|[Hin|[]]]; auto. subst c'. discriminate.
+Qed.
+
+Lemma S_seen_mono s1 s2 n : incl s1 s2 -> S_seen s1 n -> S_seen s2 n.
+Proof. intros Hi Hs c Hin Hr. destruct (Hs c Hin Hr); auto. Qed.
+
+(* one guarded event: the step is a guarded derivation that writes identities only on `ev_seen` *)
+Lemma step_guarded n ds e seen : W n -> S_seen seen n -> ev_guard n seen e ->
+  exists md, (forall k, writes md k -> List.In k (ev_seen e ++ seen)%list) /\
+             (md = MQuiet \/ exists k, md = MOn k) /\
+             trans md n (fst (step n ds e)).
+Proof.
+  intros HW Hs Hg.
+  assert (Hq : ev_pre MQuiet n ds e -> exists md, (forall k, writes md k -> List.In k (ev_seen e ++ seen)%list) /\
+             (md = MQuiet \/ exists k, md = MOn k) /\ trans md n (fst (step n ds e))).
+  { intros Hp. exists MQuiet. split; [intros k []|]. split; auto. apply step_t; [exact Hp|constructor]. }
+  destruct e; try (apply Hq; exact I).
+  destruct (List.existsb is_ce ms) eqn:Ee; [|apply Hq; cbn; now apply msgs_pre_noce].
+  clear Hq. destruct (get_conn n cid) as [c|] eqn:Ec.
+  - exists (MOn cid). split; [|split; [eauto|]].
+    + intros k Hk. cbn in Hk. subst k. cbn. rewrite Ee. now left.
+    + apply step_t; [|constructor]. cbn [ev_pre]. cbn [ev_guard] in Hg. destruct (Hg c Ec) as [Hcnt Hm].
+      pose proof (existsb_count _ Ee) as H1.
+      apply (guard_msgs_pre cid c); auto.
+      * unfold upd_last_read. apply keeps_upd; [soft_tac|].
+        eapply trans_keeps; [apply io_iteration_t; constructor|].
+        destruct HW as [[_ Hlt] _]. destruct (get_conn_some _ _ _ Ec) as [Hin Eid]. split.
+        -- apply Hlt in Hin. lia.
+        -- intros c' E'. rewrite Ec in E'. inversion E'; auto.
+      * intros Hr. destruct (get_conn_some _ _ _ Ec) as [Hin Eid]. destruct (Hs c Hin Hr) as [A|A]; auto.
+        rewrite Eid in A. apply mem_nat_in in A. rewrite A in Hcnt. lia.
+      * destruct (mem_nat cid seen); lia.
+  - exists MQuiet. split; [intros k []|]. split; auto. unfold step. rewrite Ec. constructor.
+Qed.
+
+Lemma run_guarded evs : forall n seen, GI n -> S_seen seen n -> ce_guard_from n seen evs ->
+  GI (fst (run n evs)).
+Proof.
+  induction evs as [|de r IH]; intros n seen HG Hs Hc; [exact HG|].
+  destruct Hc as [H1 H2]. rewrite run_cons.
+  assert (HW : W n) by apply HG.
+  destruct (step_guarded n (fst de) (snd de) seen HW Hs H1) as [md [Hw [Hmd Ht]]].
+  apply (IH _ (ev_seen (snd de) ++ seen)%list); auto.
+  - assert (Ht' : trans MGuard n (fst (step n (fst de) (snd de)))).
+    { destruct Hmd as [E|[k E]]; subst md; [now apply trans_quiet|eapply trans_on; eauto]. }
+    eapply (trans_inv MGuard GI); eauto. apply astep_GI.
+  - eapply (trans_inv md (S_seen (ev_seen (snd de) ++ seen)%list)); eauto.
+    + intros a b Hab. eapply astep_seen; eauto.
+    + eapply S_seen_mono; [|exact Hs]. apply incl_appr, incl_refl.
+Qed.
+
+Lemma reach_g_GI n0 n : reach_g n0 n -> GI n.
+Proof.
+  intros [evs [[Hw Hne] [Hc E]]]. subst n. apply (run_guarded evs n0 []); auto.
+  - now apply GI_init.
+  - intros c Hin. destruct Hw as [H1 _]. rewrite H1 in Hin. destruct Hin.
+Qed.
+
+Lemma reach_g_reach n0 n : reach_g n0 n -> reach n0 n.
+Proof. intros [evs [[Hw _] [_ E]]]. exists evs. auto. Qed.
+
+(* ---- invariant 3 (C13), guarded ---- *)
+Theorem C13_peer_conn_live : forall n0 n, reach_g n0 n ->
+  forall p cid, List.In p (n_peers n) -> p_conn p = Some cid ->
+  exists c, List.In c (n_conns n) /\ c_id c = cid /\ (c_node_name c = p_name p \/ c_host c = p_name p).
+Proof.
+  intros n0 n H p cid Hp Hc. destruct (reach_g_GI _ _ H) as [_ [_ [Hl _]]].
+  destruct (Hl p cid Hp Hc) as [c [A [B C]]]. exists c. auto.
+Qed.
+
+(* the stronger form that is actually invariant under the guard *)
+Theorem C13_peer_conn_live_strong : forall n0 n, reach_g n0 n ->
+  (forall c, List.In c (n_conns n) -> c_host c = ""%string \/ c_host c = c_node_name c) /\
+  (forall p cid, List.In p (n_peers n) -> p_conn p = Some cid ->
+   exists c, List.In c (n_conns n) /\ c_id c = cid /\ c_node_name c = p_name p).
+Proof. intros n0 n H. destruct (reach_g_GI _ _ H) as [_ [Hi [Hl _]]]. auto. Qed.
+
+(* ---- invariant 4 under the guard (the guard is not needed for it: see C12_outbound_owned) ---- *)
+Theorem C12_outbound_owned_g : forall n0 n, reach_g n0 n ->
+  forall c, List.In c (n_conns n) -> c_recv c = false ->
+  exists p, List.In p (n_peers n) /\ p_name p = c_node_name c /\ p_conn p = Some (c_id c).
+Proof. intros n0 n H. destruct (reach_g_GI _ _ H) as [[_ [_ Ho]] _]. exact Ho. Qed.
+
+(* ---- invariant 6 (C19), guarded ---- *)
+Theorem C19_waiting_hosts : forall n0 n, reach_g n0 n ->
+  forall h, List.In h (List.map fst (n_peer_waiting n)) ->
+  h = ""%string \/ exists c, List.In c (n_conns n) /\ c_host c = h.
+Proof. intros n0 n H. destruct (reach_g_GI _ _ H) as [_ [_ [_ Hp]]]. exact Hp. Qed.
+
+Theorem C19_no_conns_no_tables : forall n0 n, reach_g n0 n -> n_conns n = [] ->
+  n_half_ready n = [] /\ n_socket_peers n = [] /\
+  (forall h, List.In h (List.map fst (n_peer_waiting n)) -> h = ""%string) /\
+  (forall p, List.In p (n_peers n) -> p_conn p = None).
+Proof.
+  intros n0 n H E. pose proof (reach_g_GI _ _ H) as [[[_ [_ [[T1 [_ [T3 _]]] _]]] _] [_ [Hl Hp]]].
+  unfold G_live, G_pw in Hl, Hp. rewrite E in T1, T3, Hl, Hp. cbn in T1, T3.
+  split; [|split; [|split]].
+  - destruct (n_half_ready n) as [|x l]; auto. destruct (T1 x (or_introl eq_refl)).
+  - destruct (n_socket_peers n) as [|x l]; auto. destruct (T3 x (or_introl eq_refl)).
+  - intros h Hh. destruct (Hp h Hh) as [A|[c [[] _]]]; auto.
+  - intros p Hin. destruct (p_conn p) as [k|] eqn:Ek; auto. destruct (Hl p k Hin Ek) as [c [[] _]].
+Qed.
+
+(* ---------------------------------------------------------------------------------------- *)
+(* 9. witnesses: the statements are not vacuous, and the unguarded ones are false             *)
+(* ---------------------------------------------------------------------------------------- *)
+Module Witness.
+Definition mkpeer (nm : string) (addr : bool) : peer :=
+  {| p_name := nm; p_realm := "r"%string; p_has_addr := addr; p_persistent := addr; p_always := false;
+     p_cea := None; p_cer := None; p_dwa := None; p_idle := None; p_rwait := 30%Z;
+     p_conn := None; p_reason := None; p_lastconn := None; p_lastdisc := None; p_reqs := 0%Z |}.
+Definition cfg0 : cfg :=
+  {| g_host := "me"%string; g_realm := "r"%string; g_cea := 4%Z; g_cer := 4%Z; g_dwa := 4%Z; g_idle := 30%Z;
+     g_wakeup := 6%Z; g_rsize := 2; g_validate := false; g_state_id := 1%Z |}.
+Definition app0 : Node.app := {| a_id := 4%Z; a_auth := true; a_acct := false; a_ready := false; a_waiting := [] |}.
+(* one auth application (id 4) routed to every configured peer *)
+Definition node0 (ps : list peer) : node :=
+  {| n_cfg := cfg0; n_now := 0%Z; n_io_deadline := 6%Z; n_stopping := false; n_peers := ps; n_conns := [];
+     n_next_cid := 0; n_half_ready := []; n_socket_peers := [];
+     n_routes := [("r"%string, [(RApp 0, List.map p_name ps)])]; n_apps := [app0];
+     n_app_waiting := []; n_peer_waiting := []; n_origin_waiting := []; n_sent_answers := []; n_e2e := 1%Z |}.
+(* CER (req = true) / CEA with Result-Code 2001 from Origin-Host o, advertising auth application 4 *)
+Definition ce (req : bool) (o : string) (hbh : Z) : msg :=
+  {| m_cmd := CE; m_req := req; m_p := false; m_e := false; m_t := false; m_app := 0%Z; m_hbh := hbh; m_e2e := hbh;
+     m_origin := Present o; m_drealm := Undeclared; m_result := (if req then Absent else Present 2001%Z);
+     m_missing := []; m_has_failed_avp_slot := false; m_auth := [4%Z]; m_acct := []; m_tag := 0%Z |}.
+Definition appreq (o : string) (hbh : Z) : msg :=
+  {| m_cmd := App 272%Z; m_req := true; m_p := false; m_e := false; m_t := false; m_app := 4%Z; m_hbh := hbh; m_e2e := hbh;
+     m_origin := Present o; m_drealm := Present "r"%string; m_result := Absent;
+     m_missing := []; m_has_failed_avp_slot := false; m_auth := []; m_acct := []; m_tag := 0%Z |}.
+
+Lemma wf_node0 ps : NoDup (List.map p_name ps) ->
+  (forall p, List.In p ps -> p_conn p = None /\ p_reason p = None /\ p_lastdisc p = None) -> wf_init (node0 ps).
+Proof. intros H1 H2. unfold wf_init. cbn. repeat (split; [solve [auto]|]). auto. Qed.
+
+Ltac wf_tac :=
+  apply wf_node0; [repeat constructor; cbn; intuition discriminate|
+                   cbn; intros p Hp; repeat (destruct Hp as [Hp|Hp]; [subst p; cbn; auto|]); destruct Hp].
+(* discharge ce_guard for a concrete history *)
+Ltac ev_guard_tac :=
+  match goal with
+  | |- ev_guard _ _ (ERecv _ _) =>
+      let c := fresh "c" in let Hc := fresh "Hc" in
+      cbn [ev_guard snd]; intros c Hc; vm_compute in Hc; inversion Hc; subst c; clear Hc;
+      split; [vm_compute; lia|];
+      let m := fresh "m" in let Hm := fresh "Hm" in
+      intros m Hm _; cbn in Hm; repeat (destruct Hm as [Hm|Hm]; [subst m; cbn; try reflexivity; try (intros ? E; inversion E; reflexivity)|]);
+      try destruct Hm
+  | |- ev_guard _ _ _ => exact I
+  end.
+Ltac ce_guard_tac := unfold ce_guard; cbn [ce_guard_from]; repeat (split; [cbn [snd fst]; ev_guard_tac|]); try exact I.
+End Witness.
+Import Witness.
+
+(* a reachable (even under the guard) state with two connections, one of them ready *)
+Example reachable_two_conns :
+  let n0 := node0 [mkpeer "a" true; mkpeer "b" false] in
+  let evs := [([], EStart); ([], ERecv 0 [ce false "a" 1%Z]); ([], EAccept 1%Z)] in
+  let n := fst (run n0 evs) in
+  reach n0 n /\ reach_g n0 n /\
+  List.map (fun c => (c_id c, c_recv c, c_state c, c_node_name c, c_host c)) (n_conns n) =
+    [(0, false, SReady, "a"%string, "a"%string); (1, true, SConnected, ""%string, ""%string)] /\
+  List.map (fun p => (p_name p, p_conn p)) (n_peers n) = [("a"%string, Some 0); ("b"%string, None)] /\
+  n_half_ready n = [1] /\ n_socket_peers n = [0; 1].
+Proof.
+  intros n0 evs n.
+  assert (Hw : wf_init n0) by (subst n0; wf_tac).
+  split; [exists evs; auto|]. split.
+  - exists evs. split; [split; [exact Hw|cbn; intuition discriminate]|]. split; [|reflexivity].
+    subst n0 evs. ce_guard_tac.
+  - vm_compute. auto.
+Qed.
+
+(* ---- FINDING (C13): without the guard, p_conn can dangle.  Peers a, b; the node dials a
+   (connection 0); the CEA on connection 0 carries Origin-Host "b" (another configured peer):
+   _assign_peer_connection files the connection under b as well; when the connection closes
+   remove_peer_connection clears only a (found by node name).  b.connection still points to the
+   removed connection 0. ---- *)
+Theorem C13_peer_conn_live_refuted :
+  exists n0 evs, wf_init_g n0 /\
+    let n := fst (run n0 evs) in
+    exists p cid, List.In p (n_peers n) /\ p_conn p = Some cid /\
+                  ~ List.In cid (List.map c_id (n_conns n)) /\ n_conns n = [].
+Proof.
+  exists (node0 [mkpeer "a" true; mkpeer "b" false]).
+  exists [([], EStart); ([], ERecv 0 [ce false "b" 1%Z]); ([], EPeerClose 0)].
+  split; [split; [wf_tac|cbn; intuition discriminate]|].
+  vm_compute. eexists. exists 0. split; [right; left; reflexivity|]. cbn. auto.
+Qed.
+
+(* ---- FINDING (C19): without the guard, _peer_waiting leaks.  Peers b, c; an accepted connection
+   sends CER "b", an application request (filed under host b), then a second CER "c" (accepted on
+   the READY connection: its host identity becomes c); when the connection closes only the entry of
+   host c is dropped.  No connection is left, the entry of b stays for ever; c.connection dangles. *)
+Theorem C19_waiting_hosts_refuted :
+  exists n0 evs, wf_init_g n0 /\
+    let n := fst (run n0 evs) in
+    n_conns n = [] /\ n_half_ready n = [] /\ n_socket_peers n = [] /\
+    exists h, List.In h (List.map fst (n_peer_waiting n)) /\ h <> ""%string.
+Proof.
+  exists (node0 [mkpeer "b" false; mkpeer "c" false]).
+  exists [([], EAccept 1%Z); ([], ERecv 0 [ce true "b" 1%Z; appreq "b" 7%Z; ce true "c" 2%Z]); ([], EPeerClose 0)].
+  split; [split; [wf_tac|cbn; intuition discriminate]|].
+  vm_compute. repeat split. exists "b"%string. split; [now left|discriminate].
+Qed.
+
+(* ---- KNOWN FINDING (C13, open): the converse of C13_peer_conn_live is false, even for guarded
+   histories: a CER from a peer that already has a connection is accepted on a second connection;
+   when the first closes p_conn becomes None while the second lives, READY. ---- *)
+Theorem C13_peer_conn_converse_refuted :
+  exists n0 evs, wf_init n0 /\
+    let n := fst (run n0 evs) in
+    exists p c, List.In p (n_peers n) /\ List.In c (n_conns n) /\ c_node_name c = p_name p /\
+                is_ready_state (c_state c) = true /\ p_conn p = None.
+Proof.
+  exists (node0 [mkpeer "p" false]).
+  exists [([], EAccept 1%Z); ([], ERecv 0 [ce true "p" 1%Z]); ([], EAccept 1%Z); ([], ERecv 1 [ce true "p" 1%Z]);
+          ([], EPeerClose 0)].
+  split; [wf_tac|].
+  vm_compute. eexists. eexists. split; [left; reflexivity|]. split; [left; reflexivity|]. cbn. auto.
+Qed.
+
+Theorem C13_peer_conn_converse_refuted_g :
+  exists n0 n, reach_g n0 n /\
+    exists p c, List.In p (n_peers n) /\ List.In c (n_conns n) /\ c_node_name c = p_name p /\
+                is_ready_state (c_state c) = true /\ p_conn p = None.
+Proof.
+  exists (node0 [mkpeer "p" false]).
+  eexists. split.
+  - exists [([], EAccept 1%Z); ([], ERecv 0 [ce true "p" 1%Z]); ([], EAccept 1%Z); ([], ERecv 1 [ce true "p" 1%Z]);
+            ([], EPeerClose 0)].
+    split; [split; [wf_tac|cbn; intuition discriminate]|]. split; [ce_guard_tac|reflexivity].
+  - vm_compute. eexists. eexists. split; [left; reflexivity|]. split; [left; reflexivity|]. cbn. auto.
+Qed.
+
+(* ---- FINDING (C12): the hypothesis "no peer is named the empty string" is needed: a CER received
+   on a READY outbound connection to the peer named "" renames the connection; two outbound
+   connections then carry the node name "q". ---- *)
+Theorem C12_empty_name_refuted :
+  exists n0 evs, wf_init n0 /\
+    let n := fst (run n0 evs) in
+    exists c1 c2, List.In c1 (n_conns n) /\ List.In c2 (n_conns n) /\ c_recv c1 = false /\ c_recv c2 = false /\
+                  c_node_name c1 = c_node_name c2 /\ c_id c1 <> c_id c2.
+Proof.
+  exists (node0 [mkpeer "" true; mkpeer "q" true]).
+  exists [([], EStart); ([], ERecv 0 [ce false "" 1%Z]); ([], ERecv 0 [ce true "q" 2%Z])].
+  split; [wf_tac|].
+  vm_compute. eexists. eexists. split; [left; reflexivity|]. split; [right; left; reflexivity|]. cbn.
+  repeat split; auto; discriminate.
+Qed.
+
+(* ---------------------------------------------------------------------------------------- *)
+(* 10. step-level facts: the ready flag of applications (C13_ready_flag_partial) and the       *)
+(*     partial converse of C13                                                                *)
+(* ---------------------------------------------------------------------------------------- *)
+Lemma nth_map_combine_seq {A B} (f : nat * A -> B) (l : list A) : forall s i,
+  List.nth_error (List.map f (List.combine (List.seq s (List.length l)) l)) i =
+  option_map (fun a => f (s + i, a)) (List.nth_error l i).
+Proof.
+  induction l as [|a l IH]; intros s i; cbn.
+  - destruct i; reflexivity.
+  - destruct i as [|i]; cbn; [now rewrite Nat.add_0_r|]. rewrite IH. now rewrite Nat.add_succ_r.
+Qed.
+
+(* _flag_connection_as_ready makes ready every application one of whose routed peers is connected
+   through this connection (and changes no other application) *)
+Theorem C13_ready_flag_partial : forall n cid i a, List.nth_error (n_apps n) i = Some a ->
+  List.nth_error (n_apps (flag_ready n cid)) i =
+    Some (if List.existsb (fun nm => peer_has_conn n nm cid) (app_peers n i) then set_aready a true else a).
+Proof.
+  intros n cid i a H. unfold flag_ready. cbn [n_apps set_apps set_conns].
+  rewrite (nth_map_combine_seq _ (n_apps n) 0 i). rewrite H. reflexivity.
+Qed.
+
+(* remove_peer_connection clears the ready flag of exactly the applications none of whose routed
+   peers has a ready connection left (evaluated in the state after the removal) *)
+Theorem C13_ready_flag_removed : forall n cid r c i a, get_conn n cid = Some c ->
+  List.nth_error (n_apps n) i = Some a ->
+  let n' := remove_conn n cid r in
+  List.nth_error (n_apps n') i = Some (if any_peer_ready n' (app_peers n' i) then a else set_aready a false).
+Proof.
+  intros n cid r c i a Hg H. cbv zeta. unfold remove_conn. rewrite Hg.
+  destruct (find_conn_peer n c) as [p|]; [destruct (p_conn p) as [k|]; [destruct (Nat.eqb k cid)|]|];
+    cbn [n_apps set_apps set_conns set_peers set_waiting set_tables];
+    rewrite (nth_map_combine_seq _ (n_apps n) 0 i); rewrite H; reflexivity.
+Qed.
+
+(* partial converse of C13 at the place where it is established: when the capabilities exchange of
+   connection cid succeeds (assign + flag ready) and NO OTHER live connection carries the peer's
+   name, the peer's connection IS cid afterwards.  (With a second connection of the same name the
+   peer keeps pointing to the older one: the known finding.) *)
+Lemma assign_peers n cid c p : get_conn n cid = Some c -> c_host c <> ""%string -> get_peer n (c_host c) = Some p ->
+  n_peers (assign_peer_conn n cid) =
+  upd_peer (n_peers n) (c_host c) (assign_fn cid (fun p => if mem_nat cid (n_half_ready n) then Some (n_now n) else p_lastconn p)).
+Proof.
+  intros Hg Hh Hp. unfold assign_peer_conn. rewrite Hg. apply String.eqb_neq in Hh. rewrite Hh, Hp.
+  destruct (mem_nat cid (n_half_ready n)); reflexivity.
+Qed.
+
+Theorem C13_peer_conn_converse_partial : forall n cid c p,
+  P_ids n -> P_names n -> G_live n ->
+  get_conn n cid = Some c -> List.In p (n_peers n) -> c_host c = p_name p -> p_name p <> ""%string ->
+  (forall c', List.In c' (n_conns n) -> c_node_name c' = p_name p -> c_id c' = cid) ->
+  let n' := flag_ready (assign_peer_conn n cid) cid in
+  exists p', get_peer n' (p_name p) = Some p' /\ p_conn p' = Some cid /\
+             exists c', get_conn n' cid = Some c' /\ c_state c' = SReady.
+Proof.
+  intros n cid c p Hi Hn Hl Hg Hp Eh Hne Hu n'.
+  assert (Hgp : get_peer n (c_host c) = Some p) by (rewrite Eh; now apply get_peer_in).
+  exists (assign_fn cid (fun p => if mem_nat cid (n_half_ready n) then Some (n_now n) else p_lastconn p) p).
+  split; [|split].
+  - subst n'. unfold get_peer, flag_ready. cbn [n_peers set_apps set_conns].
+    erewrite assign_peers by (eauto; congruence). rewrite Eh. rewrite find_upd_peer by (intro; reflexivity).
+    rewrite Eh in Hgp. unfold get_peer in Hgp. now rewrite Hgp.
+  - unfold assign_fn. cbn. destruct (p_conn p) as [k|] eqn:Ek; auto.
+    destruct (Hl p k Hp Ek) as [c' [Hin [Eid En]]]. f_equal. rewrite <- Eid. now apply Hu.
+  - assert (Ec : n_conns (assign_peer_conn n cid) = n_conns n).
+    { unfold assign_peer_conn. rewrite Hg. destruct (String.eqb (c_host c) ""); auto. rewrite Hgp.
+      destruct (mem_nat cid (n_half_ready n)); reflexivity. }
+    exists (set_cstate c SReady). split; auto. subst n'. unfold flag_ready, get_conn. cbn [n_conns set_apps set_conns].
+    rewrite Ec. rewrite find_upd_conn by (intro; reflexivity). unfold get_conn in Hg. now rewrite Hg.
+Qed.
+
+(* ---------------------------------------------------------------------------------------- *)
+(* 11. assumptions                                                                            *)
+(* ---------------------------------------------------------------------------------------- *)
+Print Assumptions I_ids.
+Print Assumptions C13_tables_subset.
+Print Assumptions C13_closed_nowhere.
+Print Assumptions C13_closed_stays_closed.
+Print Assumptions C13_reason_set.
+Print Assumptions remove_conn_sets_reason.
+Print Assumptions C19_windows_bounded.
+Print Assumptions C12_outbound_owned.
+Print Assumptions C12_single_outbound.
+Print Assumptions C13_peer_conn_live.
+Print Assumptions C13_peer_conn_live_strong.
+Print Assumptions C12_outbound_owned_g.
+Print Assumptions C19_waiting_hosts.
+Print Assumptions C19_no_conns_no_tables.
+Print Assumptions reachable_two_conns.
+Print Assumptions C13_peer_conn_live_refuted.
+Print Assumptions C19_waiting_hosts_refuted.
+Print Assumptions C13_peer_conn_converse_refuted.
+Print Assumptions C13_peer_conn_converse_refuted_g.
+Print Assumptions C12_empty_name_refuted.
+Print Assumptions C13_ready_flag_partial.
+Print Assumptions C13_ready_flag_removed.
+Print Assumptions C13_peer_conn_converse_partial.
